@@ -292,7 +292,7 @@ fn check_state(ctx: &Ctx, all: &[F], st: &St) -> Vec<i32> {
 
 pub fn run(ctx: &Ctx) -> Coverage {
     let all = fronts();
-    let depth = ctx.tier().pick(4, 5);
+    let depth = ctx.tier().pick(5, 6);
     let nsym = all.len() * 2;
     let lookups = std::sync::atomic::AtomicU64::new(0);
     let tables: std::sync::Mutex<HashMap<xs::Key, Vec<i32>>> = std::sync::Mutex::new(HashMap::new());
@@ -303,7 +303,7 @@ pub fn run(ctx: &Ctx) -> Coverage {
         }],
         nsym,
         depth,
-        3_000_000,
+        12_000_000,
         |s, sym, _| {
             let (add, i) = (sym < all.len(), sym % all.len());
             // spec transition
